@@ -228,8 +228,12 @@ def mergeCommon (p1 p2 : Config) : Config :=
   | _ => p1
 
 def mergeSpoc (fixed : Bool) (p1 p2 : Config) : Res Config :=
-  mergeNew fixed (mergeCommon p1 p2)
-    ((firstDevice p2).vsys.filter fun v => ¬ (firstDevice p1).vsys.any (fun x => x.name = v.name))
+  -- processVsysPairs returns an error (ignored by MergeSpoc) before any pair is visited
+  if (firstDevice p1).name ≠ [] ∧ (firstDevice p2).name ≠ [] ∧ (firstDevice p1).name ≠ (firstDevice p2).name then
+    .ok p1
+  else
+    mergeNew fixed (mergeCommon p1 p2)
+      ((firstDevice p2).vsys.filter fun v => ¬ (firstDevice p1).vsys.any (fun x => x.name = v.name))
 
 /-- `GetChanges`: `p1.Devices.Entries[0].Name` is read only for a vsys `v1` found in the first
 device of `p1`. -/
